@@ -237,6 +237,24 @@ where
                 _ => {}
             }
         }
+        // inputs for which the bridge may refuse (indefinite tuples / enum maps) but must never return
+        // another value: everything indefinite, and every combination of two indefinite containers
+        let mut lenient: Vec<Vec<u8>> = vec![all_indefinite(&item).to_bytes()];
+        for d in deviations_up_to_ex(&item, 2, false, true, false).into_iter().skip(1) {
+            lenient.push(d.to_bytes());
+        }
+        for input in lenient {
+            evals += 1;
+            let mut de = minicbor_serde::Deserializer::new(&input);
+            if let Ok(back) = T::deserialize(&mut de) {
+                let pos = de.decoder().position();
+                if back != *v {
+                    sink.fail(sub, None, wrapper, leaf, shown.clone(), hex(&input), format!("an indefinite-length re-framing deserialised to a different value {:?}", back));
+                } else if pos != input.len() {
+                    sink.fail(sub, None, wrapper, leaf, shown.clone(), hex(&input), format!("an indefinite-length re-framing deserialised to the right value but consumed {} of {} bytes", pos, input.len()));
+                }
+            }
+        }
         let mut all_ok = true;
         for (input, item_len) in inputs {
             evals += 1;
@@ -409,7 +427,9 @@ where
         let mut all_ok = true;
         // width-only re-framings must decode on both sides; container re-framings: each side value-or-error
         let widths: Vec<Item> = deviations_up_to_ex(&item, 2, true, false, false);
-        let framed: Vec<Item> = deviations_up_to_ex(&item, 1, false, true, true).into_iter().skip(1).collect();
+        // every combination of up to three indefinite containers / chunked strings, and everything indefinite
+        let mut framed: Vec<Item> = deviations_up_to_ex(&item, 3, false, true, true).into_iter().skip(1).collect();
+        framed.push(all_indefinite(&item));
         for (k, variant) in widths.iter().map(|x| (true, x)).chain(framed.iter().map(|x| (false, x))) {
             let input = variant.to_bytes();
             evals += 1;
@@ -436,6 +456,16 @@ where
         }
     }
     sink.count(sub, "shared", name, evals, ok);
+}
+
+/// Every array and map of the item made indefinite.
+fn all_indefinite(i: &Item) -> Item {
+    match i {
+        Item::Array(v, _) => Item::Array(v.iter().map(all_indefinite).collect(), Len::Indef),
+        Item::Map(v, _) => Item::Map(v.iter().map(|(k, x)| (all_indefinite(k), all_indefinite(x))).collect(), Len::Indef),
+        Item::Tag(t, w, x) => Item::Tag(*t, *w, Box::new(all_indefinite(x))),
+        o => o.clone(),
+    }
 }
 
 pub fn run_c18(sink: &mut dyn Sink) {
@@ -470,4 +500,19 @@ pub fn run_c18(sink: &mut dyn Sink) {
     shared(sink, "Option<Vec<[u8;3]>>", vec![None, Some(vec![[1u8, 2, 3], [24, 25, 255]])]);
     shared(sink, "BTreeMap<i8,(u8,())>", vec![[(-25i8, (1u8, ())), (5, (24, ()))].into_iter().collect::<BTreeMap<_, _>>()]);
     shared(sink, "Vec<Vec<u8>>", vec![vec![vec![], vec![1u8, 2], vec![24]]]);
+    // tuples and fixed arrays nested in sequences and maps (the break of an inner container must never end the outer one)
+    shared(sink, "Vec<(u8,u8)>", vec![vec![(1u8, 2u8), (3, 4)], vec![(24, 255)]]);
+    shared(sink, "Vec<[u8;2]>", vec![vec![[1u8, 2], [3, 4], [5, 6]]]);
+    shared(sink, "BTreeMap<u8,(u8,u8)>", vec![[(1u8, (2u8, 3u8)), (4, (5, 6))].into_iter().collect::<BTreeMap<_, _>>()]);
+    shared(sink, "(Vec<u8>,(u8,),[u8;1])", vec![(vec![1u8, 2], (3u8,), [4u8])]);
+    shared(sink, "Option<(u8,Vec<(u8,bool)>)>", vec![Some((1u8, vec![(2u8, true), (3, false)]))]);
+    // every tuple arity with pairwise different components (comparison is available up to arity 12)
+    shared(sink, "tuple5", vec![(1u8, 2u16, 3u32, 4u64, -5i8)]);
+    shared(sink, "tuple6", vec![(1u8, 2u16, 3u32, 4u64, -5i8, -6i16)]);
+    shared(sink, "tuple7", vec![(1u8, 2u16, 3u32, 4u64, -5i8, -6i16, -7i32)]);
+    shared(sink, "tuple8", vec![(1u8, 2u16, 3u32, 4u64, -5i8, -6i16, -7i32, -8i64)]);
+    shared(sink, "tuple9", vec![(1u8, 2u16, 3u32, 4u64, -5i8, -6i16, -7i32, -8i64, true)]);
+    shared(sink, "tuple10", vec![(1u8, 2u16, 3u32, 4u64, -5i8, -6i16, -7i32, -8i64, true, 'j')]);
+    shared(sink, "tuple11", vec![(1u8, 2u16, 3u32, 4u64, -5i8, -6i16, -7i32, -8i64, true, 'j', 11.5f32)]);
+    shared(sink, "tuple12", vec![(1u8, 2u16, 3u32, 4u64, -5i8, -6i16, -7i32, -8i64, true, 'j', 11.5f32, "l".to_string())]);
 }
